@@ -172,6 +172,22 @@ CLAIMED["C09"] = dict(
     technique="Coq proof (codec bijection, policy gate, copy faithfulness) + vm_compute correspondence on documents",
     design="4/C09")
 
+CLAIMED["C20"] = dict(
+    text=("materialize_defaults and with_defaults_trimmed modelled on one argument store (Transform.materialize / "
+          "trim) and proved to leave the callee's view (C01's reference view, hence the build) unchanged, "
+          "materialize idempotent and total; at heap level materialize_defaults (lazy in-place walk), "
+          "with_defaults_trimmed, replace_unconfigured_partials_with_callables, materialize_tags and "
+          "clear_argument_history are instances of the proved memoized traversal and are compared in Coq with the "
+          "implementation (node-for-node after the in-place edit, up to isomorphism for the rebuilding ones). The "
+          "oracle builds before and after every transformation (incl. unintern_tuples_of_literals, "
+          "auto_config.inline, convert_dataclasses_to_configs) and compares the built graphs, ==, idempotence, "
+          "totality and serializability."),
+    note=COMMON_NOTE + " Oracle conventions: built functools.partial compared modulo callee defaults, "
+         "partial(f) identified with f, numerically equal leaves identified (Python ==), tuple-of-literals "
+         "identity not observed. inline / dataclass conversion / unintern are decided by the oracle only.",
+    technique="Coq proof (view preservation of materialize/trim; traversal instances) + heap correspondence + build oracle",
+    design="4/C20")
+
 PENDING_REASON = "check not built yet in this session (work in progress; see DESIGN.md section 4)"
 
 
